@@ -344,6 +344,11 @@ func (f *SimpleGlyf) makeDict() (*dict.TrueType, error) {
 	// descriptor's FontName, which for a subset carry the tag
 	subsetFont.FontName = subset.Join(subsetTag, postScriptName)
 
+	toUnicode := f.Simple.ToUnicode()
+	if isSymbolic {
+		toUnicode = f.Simple.ToUnicodeBuiltin()
+	}
+
 	fontDict := &dict.TrueType{
 		PostScriptName: postScriptName,
 		SubsetTag:      subsetTag,
@@ -351,7 +356,7 @@ func (f *SimpleGlyf) makeDict() (*dict.TrueType, error) {
 		Descriptor:     fd,
 		Encoding:       dictEnc,
 		Width:          widths,
-		ToUnicode:      f.Simple.ToUnicode(),
+		ToUnicode:      toUnicode,
 		FontFile:       sfntglyphs.ToStream(subsetFont, glyphdata.TrueType),
 	}
 
